@@ -75,7 +75,8 @@ Definition trim_space (s : list byte) : list byte :=
 (* ---- register values ---- *)
 
 Inductive rvalue :=
-| RVNum (q : Q)                          (* exact value; the code rounds to float64 *)
+| RVNum (q : Q) (raw : Z)                (* exact value raw/factor + offset, and the raw integer it was computed from
+                                           (the float64 the code returns is Float.number_value_f64 r raw) *)
 | RVText (t : list byte)
 | RVEnum (idx : Z) (name : string)
 | RVFields (fs : list (Z * bool)).
@@ -101,7 +102,7 @@ Definition number_value (r : reg) (raw : Z) : Q :=
 Definition read_register (c : cfg) (idle : bool) (r : reg) (s : vdstate) : res rvalue * vdstate :=
   if r_kind r =? 1 then
     match (if r_signed r then get_int c idle (r_addr r) s else get_uint c idle (r_addr r) s) with
-    | (Ok (VNum n), s1) => (Ok (RVNum (number_value r n)), s1)
+    | (Ok (VNum n), s1) => (Ok (RVNum (number_value r n) n), s1)
     | (Ok _, s1) => (Panic, s1)
     | (Err e, s1) => (Err (wrap r e), s1)
     | (Panic, s1) => (Panic, s1)
